@@ -536,7 +536,11 @@ class Model:
             return self.block(st.body if r[1] else st.orelse, env, kk, th)
         n = self.node(th, r[2] or st.lineno, "branch")
         n.extra["entry"] = n.extra["entry"] + r[3]
-        self.out(n, r[1], [], self.block(st.body, env, kk, th), label="then")
+        env_then = env
+        if ast.unparse(st.test) == "self.process":
+            env_then = dict(env)
+            env_then["_pf_known"] = ("static", True)
+        self.out(n, r[1], [], self.block(st.body, env_then, kk, th), label="then")
         self.out(n, NOT(r[1]), [], self.block(st.orelse, env, kk, th), label="else")
         return Edge(n.id)
 
@@ -770,6 +774,9 @@ class Model:
         if so and so[0] == "job":
             j = so[1]
             if targets == ["self.process"] and isinstance(val, ast.Call) and ast.unparse(val.func) == "Popen":
+                e2 = dict(env)
+                e2["_pf_known"] = ("static", True)
+                rest = krest(e2)
                 return simple_node("popen", [
                     (("nb", f"pfail{j}"), [(f"proc{j}", ("const", P_RUN)), (f"pf{j}", ("const", True))], rest(),
                      False, "ok"),
@@ -848,6 +855,14 @@ class Model:
                     return krest(e2)()
 
         if not is_sensitive(st) and not has_control(st):
+            if so and so[0] == "job" and not env.get("_pf_known") and any(
+                    isinstance(a, ast.Attribute) and isinstance(a.value, ast.Attribute) and a.value.attr == "process"
+                    and isinstance(a.value.value, ast.Name) and a.value.value.id == "self" for a in ast.walk(st)):
+                # `self.process.<attr>` where nothing on the way here guarantees that Popen() succeeded: None has no
+                # such attribute
+                j = so[1]
+                return simple_node("proc-attr", [(("b", f"pf{j}"), [], rest(), False, "ok"),
+                                                 (("nb", f"pf{j}"), [], k.exc("ATTRERR"), False, "none")])
             return rest()
         raise Unsupported(f"line {ln}: statement not in the vocabulary: {s[:90]}")
 
